@@ -1287,6 +1287,10 @@ def c06(ctx: Ctx) -> None:
         ee = [e for e in g.succ[pb.id] if e.label == 'exc']
         if not ee:
             continue
+        # (a store that only ever runs after the wake-up has nobody left to strand - that order is C01-R6's business)
+        after_wake = r.WAKE and all(must_pass(g, [], [pb], r.WAKE, start_edges=[e for e in g.succ[c_.id] if e.label != 'exc']) is None for c_ in r.CALL)
+        if after_wake:
+            continue
         w = must_pass(g, [], exits, r.WAKE, start_edges=ee, edge_ok=feasible)
         ctx.check('C06-R7', f'a failing store {norm(pb.ast)} wakes the waiters', _loc(g, pb), w is None and bool(r.WAKE),
                   'a value the mapping refuses costs the others a recomputation, not the safety timeout',
